@@ -117,6 +117,9 @@ def probe_cases(rng, n):
         ret = {"dims": rng.choice([q, f"{q} {r}"]), "shape": None, "cat": "Shaped", "dtype": "float32"}
         ret["shape"] = [s + 1] if ret["dims"] == q else [s + 2, params[0]["shape"][0]]
         out.append({"params": params, "ret": ret, "probe": {"dims": dims, "shape": shape}})
+        if len(out) % 4 == 0:
+            # the same idea through an unannotated decorated helper whose check PASSES (and binds q, r in its own context)
+            out.append({"params": params, "ret": ret, "helper_probe": {"dims": f"{q} 7", "shape": [s, 7]}})
     return out
 
 
@@ -139,6 +142,12 @@ def to_model_prog(case, order):
         r = case["ret"]
         ret = {"ty": arr_type(r["dims"], cat=r["cat"]), "val": arr_val(r["shape"], dtype=r["dtype"])}
     body = []
+    if case.get("helper_probe"):
+        # the body calls a decorated helper WITHOUT annotations that makes a manual check: the helper's call has a context of
+        # its own, what it binds is gone when it returns
+        hp = case["helper_probe"]
+        body = [{"op": "call", "kind": "new", "params": [], "ret": None, "bindok": True, "notc": False,
+                 "body": [{"op": "check", "l": arr_type(hp["dims"]), "x": arr_val(hp["shape"])}], "exit": "ret"}]
     if case.get("probe"):
         # a manual `isinstance(value, annotation)` in the function body (the documented idiom) before it returns
         body = [{"op": "check", "l": arr_type(case["probe"]["dims"]), "x": arr_val(case["probe"]["shape"])}]
@@ -182,7 +191,13 @@ def run_configs(case, order, rng):
     for ck, tc in CHECKERS.items():
         for style in ("new", "old"):
             scope = {"_ret": retval}
-            if case.get("probe"):
+            if case.get("helper_probe"):
+                hp = case["helper_probe"]
+                scope["_pv"], scope["_pa"] = val_of({**hp, "cat": "Shaped", "dtype": "float32"}), ann_of({**hp, "cat": "Shaped"})
+                exec("def helper():\n    return isinstance(_pv, _pa)", scope)
+                scope["helper"] = jaxtyped(typechecker=tc)(scope["helper"]) if style == "new" else jaxtyped(tc(scope["helper"]))
+                exec(f"def fn({', '.join(names)}):\n    helper()\n    return _ret", scope)
+            elif case.get("probe"):
                 scope["_pv"], scope["_pa"] = val_of({**case["probe"], "cat": "Shaped", "dtype": "float32"}), ann_of({**case["probe"], "cat": "Shaped"})
                 exec(f"def fn({', '.join(names)}):\n    isinstance(_pv, _pa)\n    return _ret", scope)
             else:
@@ -282,6 +297,57 @@ def variadic_cases(thorough):
             yield {"params": ps, "ret": ret}
 
 
+def overlapping_calls(out):
+    """two threads inside checked calls at overlapping times, same axis name, different sizes: each call has its own
+    consistent assignment, so each must be accepted — and the inconsistent one rejected — whatever the other thread does.
+    Sequenced with events (no timing): A enters its body, B makes a whole call, A returns."""
+    import threading
+
+    for ck, tc in CHECKERS.items():
+        for style in ("new", "old"):
+            results = {}
+            in_a, go_a, in_b, go_b = threading.Event(), threading.Event(), threading.Event(), threading.Event()
+
+            def mk(fn):
+                fn.__annotations__ = {"x": jaxtyping.Float[ARRAY_CLASSES["Duck"], "n"], "return": jaxtyping.Float[ARRAY_CLASSES["Duck"], "n"]}
+                return jaxtyped(typechecker=tc)(fn) if style == "new" else jaxtyped(tc(fn))
+
+            bad_ret = val_of({"shape": [5], "cat": "Float", "dtype": "float32"})
+
+            def fa0(x):
+                in_a.set()
+                go_a.wait(30)
+                return x
+
+            def fb0(x):
+                in_b.set()
+                go_b.wait(30)
+                return x
+
+            def fbad0(x):
+                return bad_ret
+
+            fa, fb, fbad = mk(fa0), mk(fb0), mk(fbad0)
+            v = lambda n: val_of({"shape": [n], "cat": "Float", "dtype": "float32"})  # noqa: E731
+            ta = threading.Thread(target=lambda: results.__setitem__("A", classify(fa, [v(3)], {})))
+            tb = threading.Thread(target=lambda: results.__setitem__("B", classify(fb, [v(4)], {})))
+            # A enters its body, B enters its body, A returns (its return value is checked while B is still inside), B returns
+            ta.start()
+            in_a.wait(30)
+            tb.start()
+            in_b.wait(30)
+            go_a.set()
+            ta.join(30)
+            results["B-bad"] = classify(fbad, [v(4)], {})
+            go_b.set()
+            tb.join(30)
+            want = {"A": "accept", "B": "accept", "B-bad": "reject"}
+            out.case(("overlap", ck, style), True, sample={"checker": ck, "style": style, "verdicts": results})
+            if results != want:
+                out.violation(f"overlap:{ck}/{style}", f"two threads in overlapping checked calls ({ck}, {style}-style; A: n=3 -> n=3, B: n=4 -> n=4, B-bad: n=4 -> n=5) "
+                              f"give {results}, must give {want}", {"overlap": [ck, style]})
+
+
 def run(tier, seed, out, drv, facts):
     rng = Rng(seed, "C02")
     thorough = tier == "thorough"
@@ -296,7 +362,11 @@ def run(tier, seed, out, drv, facts):
     out.count("variadic_signatures", len(vc))
     for case in probe_cases(rng, 400 if thorough else 40):
         run_case(out, drv, facts, case, rng, 0)
+    overlapping_calls(out)
 
 
 def replay(rep, out, drv, facts):
+    if "overlap" in rep:
+        overlapping_calls(out)
+        return
     run_case(out, drv, facts, rep["case"], Rng(0, "replay"), 2)
